@@ -729,23 +729,30 @@ def run(ck):
                    "reaches processData with >= 2 octets; distinct = distinct (context, stream, segmentation)")
     gen_ok = regenerate(ck)
     broken = ck.coq_props()
-    if os.path.exists(os.path.join(vlib.COQ, "Props", "C02Utf8.v")):
-        # bridge to C09 (the integrator's Props/C02Utf8.v): the model's UTF-8 automaton is the table-driven validator the
-        # code runs.  Its closure needs the UTF-8 tables regenerated from the tree under test (C09's translator).
-        try:
-            sys.path.insert(0, os.path.join(vlib.ROOT, "translators"))
-            import utf8_table
-            utf8_table.generate()
-            ck.obligation("translator_utf8_table", True)
-            broken = ck.coq_props("Props/C02Utf8.v")          # obligations accumulate
-        except Exception as e:      # TranslatorError (fail closed) or a missing tool chain
-            ck.obligation("translator_utf8_table", False, f"{type(e).__name__}: {e}"[:600])
     ok, out = vlib.coq_make(["Model/WsRecvRun.vo"])
     if not ok:
         ck.obligation("model_runner_builds", False, out[-1500:])
         if not gen_ok:
             return
         raise RuntimeError("WsRecvRun build failed: " + out[-1500:])
+    # the stages below are independent processes (driver runs, coqc): started together, collected in report order
+    import concurrent.futures
+    pool = concurrent.futures.ThreadPoolExecutor(max_workers=8)
+
+    def utf8_bridge():
+        # bridge to C09 (the integrator's Props/C02Utf8.v): the model's UTF-8 automaton is the table-driven validator the
+        # code runs.  Its closure needs the UTF-8 tables regenerated from the tree under test (C09's translator).  The
+        # property file is slow to check (Print Assumptions over the table proofs): it runs next to the other stages.
+        try:
+            sys.path.insert(0, os.path.join(vlib.ROOT, "translators"))
+            import utf8_table
+            utf8_table.generate()
+            ck.obligation("translator_utf8_table", True)
+            return ck.coq_props("Props/C02Utf8.v")          # obligations accumulate
+        except Exception as e:      # TranslatorError (fail closed) or a missing tool chain
+            ck.obligation("translator_utf8_table", False, f"{type(e).__name__}: {e}"[:600])
+            return None
+    bridge_job = pool.submit(utf8_bridge) if os.path.exists(os.path.join(vlib.COQ, "Props", "C02Utf8.v")) else None
     quick = ck.quick()
 
     # ---------------- corpus first
@@ -763,10 +770,7 @@ def run(ck):
     split_dependent = {}
     # the real default UTF-8 validator / masker is the native (NVX) one: the whole stage runs with AUTOBAHN_USE_NVX=0 and =1
     seq_runs = [("tx", False), ("aio", False), ("tx", True)] + ([] if quick else [("aio", True)])
-    # the stages are independent driver processes: the two header sweeps (16 worker processes each) and the sequence runs
-    # are started together and collected in the order the report needs them
-    import concurrent.futures
-    pool = concurrent.futures.ThreadPoolExecutor(max_workers=8)
+    # the two header sweeps (16 worker processes each) and the sequence runs are started together
     ctxs = contexts()
     sample_hdrs = stratified_headers(ck.rng("headers"))
     hdrs = None if not quick else sample_hdrs
@@ -924,6 +928,9 @@ def run(ck):
 
     # ---------------- model on the sequence sample
     bad = seq_model_job.result()
+    if bridge_job is not None:
+        b = bridge_job.result()
+        broken = b if b is not None else broken
     pool.shutdown()
     ck.bump("model_compared_sequences", len(terms))
     ck.log(f"model vs implementation on sequences: {len(terms)} cases, {len(bad)} disagree")
